@@ -28,8 +28,12 @@
     (`cfgHead`; `Kopf/Tie/C20.lean` re-checks the four facts against the source on every run).
   * HISTORICAL variants (a flag = false): three labels (`Label.leaves`: `orchAbandon` C20-F8, `spawnCancel` C20-F10,
     `stopCancel` C20-F11) set the ghost flag `abandoned` and nothing else — the OLD code went on there in a way the model
-    does not describe. In the model of the current tree none of them is enabled: `repaired_never_abandoned`,
-    `head_never_abandoned`. The theorems below are stated for every `cfg`; for a historical variant they speak about
+    does not describe. In the model of the current tree none of them is enabled (`repaired_never_abandoned`); but THE CURRENT
+    TREE leaves the model at a fourth label, `orchCrash` (variant `orchSwept := false`; open finding C20-F12: the orchestrator's
+    own loop raises, it ends failed at once and orphans its ensemble) — and at no other:
+    `head_abandoned_only_by_orchestrator_failure_partial`, `orchestrator_own_failure_leaves_model_witness`.
+    The theorems below are stated for every `cfg`; for the current tree they speak about the code on runs WITHOUT `orchCrash`
+    (where `abandoned = false`), for a historical variant they speak about
     the model, which is faithful to the old code only while `abandoned = false` (the `historical_…_witness` theorems show
     what the old code did at those labels; their corpus witnesses are regression tests now).
   * NOT modelled (assumptions on the environment): a further cancellation of an `operator()` that is already inside one
@@ -574,7 +578,7 @@ theorem failure_to_stop_bound_partial {cfg : Cfg} {s : State} (hr : ReachC cfg s
 /-- HISTORICAL: the model of the code BEFORE /repo 9ef1bcb (no edge from the ensemble tasks to the orchestrator),
     with the default grace periods in ticks of 1/64 s. -/
 def cfgHistorical : Cfg := { fixed := false, coreWatched := false, orchShielded := false, spawnSwept := false, stopSwept := false,
-                             deplEscalates := false, E := 128, W := 264, D := 64, C := 32, H := 320 }
+                             deplEscalates := false, orchSwept := false, E := 128, W := 264, D := 64, C := 32, H := 320 }
 
 /-- THE CURRENT TREE: what `Kopf/Tie/C20.lean` proves equal to the facts extracted from the source. -/
 def cfgHead : Cfg := headCfg 128 264 64 32 320
@@ -873,10 +877,11 @@ theorem interrupted_killer_never_meets_cleanup {cfg : Cfg} {s : State} (hr : Rea
     s.cleanupBegun = false :=
   ((InvK.reach hr).cut (Or.inl hk)).2
 
-/-- In every variant with the three repairs (ab6fb15, d6da86b, 883284c) no run ever leaves the model: none of the
+/-- In every variant with the three repairs (ab6fb15, d6da86b, 883284c) AND with an orchestrator that stops its ensemble on every
+    exit of its loop (`orchSwept`: proposals/fix-C20-F12 — NOT the current tree) no run ever leaves the model: none of the
     `leaves` labels is enabled, `abandoned` stays false. -/
 theorem repaired_never_abandoned {cfg : Cfg} (hsh : cfg.orchShielded = true) (hsp : cfg.spawnSwept = true)
-    (hst : cfg.stopSwept = true) {s : State} (hr : Reach cfg s) : s.abandoned = false := by
+    (hst : cfg.stopSwept = true) (hos : cfg.orchSwept = true) {s : State} (hr : Reach cfg s) : s.abandoned = false := by
   refine Reach.induction (P := fun s => s.abandoned = false) rfl ?_ s hr
   intro s s' l _ hI h
   cases hl : l.leaves with
@@ -886,11 +891,69 @@ theorem repaired_never_abandoned {cfg : Cfg} (hsh : cfg.orchShielded = true) (hs
     cases l <;> simp [Label.leaves] at hl
     all_goals (simp only [step] at h; split at h)
     all_goals (first | (cases h; done) | skip)
-    all_goals (rename_i hh; simp [hsh, hsp, hst] at hh)
+    all_goals (rename_i hh; simp [hsh, hsp, hst, hos] at hh)
 
-/-- … in particular in THE MODEL OF THE CURRENT TREE (whatever the grace periods) -/
-theorem head_never_abandoned (e w d c h : Nat) {s : State} (hr : Reach (headCfg e w d c h) s) : s.abandoned = false :=
-  repaired_never_abandoned rfl rfl rfl hr
+/-- THE MODEL OF THE CURRENT TREE (whatever the grace periods) leaves the model at ONE label only — `orchCrash`, the
+    orchestrator's own failure (open finding C20-F12): a run without that label never sets `abandoned`. FULL statement wanted:
+    `s.abandoned = false` for every reachable state (`head_never_abandoned`, true until the white-box hunt generated the
+    orchestrator's own failure) — FALSE of the current tree: `orchestrator_own_failure_leaves_model_witness`. Every theorem of
+    this file about the current tree speaks about the code only on runs without `orchCrash`. -/
+theorem head_abandoned_only_by_orchestrator_failure_partial (e w d c h : Nat) (ls : List Label) {s : State}
+    (hrun : run (headCfg e w d c h) init ls = some s) (hno : Label.orchCrash ∉ ls) : s.abandoned = false := by
+  have key : ∀ (ls : List Label) (s0 s : State), s0.abandoned = false → run (headCfg e w d c h) s0 ls = some s →
+      Label.orchCrash ∉ ls → s.abandoned = false := by
+    intro ls
+    induction ls with
+    | nil => intro s0 s h0 hr _; simp [run] at hr; subst hr; exact h0
+    | cons l ls ih =>
+      intro s0 s h0 hr hno
+      simp only [run] at hr
+      cases hs : step (headCfg e w d c h) s0 l with
+      | none => simp [hs] at hr
+      | some s1 =>
+        simp [hs] at hr
+        have hl : l ≠ .orchCrash := fun hh => hno (by simp [hh])
+        have hno' : Label.orchCrash ∉ ls := fun hh => hno (by simp [hh])
+        refine ih s1 s ?_ hr hno'
+        cases hlv : l.leaves with
+        | false => rw [abandoned_step hs hlv]; exact h0
+        | true =>
+          exfalso
+          cases l <;> simp [Label.leaves] at hlv
+          all_goals (first | (exact hl rfl) | skip)
+          all_goals (simp only [step] at hs; split at hs)
+          all_goals (first | (cases hs; done) | skip)
+          all_goals (rename_i hh; simp [headCfg, headShieldsStop, headSweepsSpawn, headSweepsStop] at hh)
+  exact key ls init s rfl hrun hno
+
+/-- the proposed tree: the orchestrator stops its ensemble on every exit of its loop (proposals/fix-C20-F12) -/
+def cfgOrchSwept : Cfg := { cfgHead with orchSwept := true }
+
+/-- startup; the orchestrator spawns a watcher and a keep-alive task; a worker of the watcher has a handler in flight -/
+def orchCrashPrefix : List Label :=
+  startAll ++ [.subSpawn .watcher, .subSpawn .pinger, .workerStart (.sub 0), .act (.worker 0)]
+
+/-- WITNESS ABOUT THE CURRENT TREE (open finding C20-F12; replayed on kopf: corpus `C20-F12`, `C20-F12_no_peering`, trigger
+    `orch_fail`): with the orchestrator running, a watcher and a keep-alive alive and a handler in flight, the orchestrator's own
+    failure (`orchCrash`) is ENABLED and the run leaves the model — nothing of the ensemble has been asked to stop (no `creq`),
+    the cleanup has not begun; the real code then runs the cleanup beside the live stream and the handler in flight, and with
+    peering never returns. So `head_never_abandoned` (every reachable state of the model of the current tree has
+    `abandoned = false`) is FALSE; `head_abandoned_only_by_orchestrator_failure_partial` is what remains. In the proposed tree
+    (`cfgOrchSwept`) the label is not enabled. -/
+theorem orchestrator_own_failure_leaves_model_witness :
+    ∃ s0 s, runC cfgHead init orchCrashPrefix = some s0
+      ∧ s0.abandoned = false ∧ s0.st (.root .orchestrator) = .running
+      ∧ step cfgHead s0 .orchCrash = some s
+      ∧ s.abandoned = true ∧ (s.st (.sub 0)).live = true ∧ (s.st (.sub 1)).live = true ∧ s.kind 1 = .pinger
+      ∧ s.creq (.sub 0) = false ∧ s.creq (.sub 1) = false ∧ workerLive s 0 = true
+      ∧ s.cleanupBegun = false ∧ s.rt = .waiting
+      ∧ step cfgOrchSwept s0 .orchCrash = none :=
+  ⟨_, _, rfl, by decide, by decide, rfl, by decide, by decide, by decide, by decide, by decide, by decide, by decide,
+   by decide, by decide, by decide⟩
+
+/-- … and a Reach-level reading of the same fact: a reachable state of the model of the current tree with `abandoned = true` -/
+example : ∃ s, Reach cfgHead s ∧ s.abandoned = true :=
+  ⟨_, ⟨orchCrashPrefix ++ [.orchCrash], rfl⟩, by decide⟩
 
 /-- startup; an observer with a worker (a handler in flight); a stop flag: the stop-flag checker ends, `run_tasks` begins to
     stop the root tasks, the observer enters its `finally:` (depletion of its workers, up to `E`) -/
